@@ -37,21 +37,22 @@ Fixpoint join_lf (parts : list bytes) : bytes :=
   end.
 
 (* ------------------------------------------------------- the implementation *)
-Record sst := {
-  s_skip : bool;             (* parseLine's skip flag *)
+Record est := {
   s_id : option bytes;       (* eid / .leid *)
   s_name : bytes;            (* ename *)
   s_parts : list bytes;      (* parts, most recent first *)
   s_retry : option N         (* .retry *)
 }.
+(* parseLine's skip flag and the event state *)
+Definition sst : Type := bool * est.
 
-Definition sse_init : sst :=
-  {| s_skip := false; s_id := None; s_name := []; s_parts := []; s_retry := None |}.
+Definition est_init : est := {| s_id := None; s_name := []; s_parts := []; s_retry := None |}.
+Definition sse_init : sst := (false, est_init).
 
 (* one line of parseEvents (not closed) *)
-Definition sse_line (s : sst) (line : bytes) : sst * option event :=
+Definition sse_line (s : est) (line : bytes) : est * option event :=
   if is_nil line then
-    let s' := {| s_skip := s_skip s; s_id := s_id s; s_name := []; s_parts := []; s_retry := s_retry s |} in
+    let s' := {| s_id := s_id s; s_name := []; s_parts := []; s_retry := s_retry s |} in
     if is_nil (s_parts s) then (s', None)
     else (s', Some {| ev_id := s_id s; ev_name := s_name s; ev_data := join_lf (rev (s_parts s)) |})
   else
@@ -59,26 +60,23 @@ Definition sse_line (s : sst) (line : bytes) : sst * option event :=
     if sep && is_nil field then (s, None) else     (* comment *)
     let value := drop_space value in
     if bytes_eqb field f_event then
-      ({| s_skip := s_skip s; s_id := s_id s; s_name := value; s_parts := s_parts s; s_retry := s_retry s |}, None)
+      ({| s_id := s_id s; s_name := value; s_parts := s_parts s; s_retry := s_retry s |}, None)
     else if bytes_eqb field f_data then
-      ({| s_skip := s_skip s; s_id := s_id s; s_name := s_name s; s_parts := value :: s_parts s; s_retry := s_retry s |}, None)
+      ({| s_id := s_id s; s_name := s_name s; s_parts := value :: s_parts s; s_retry := s_retry s |}, None)
     else if bytes_eqb field f_id then
       if existsb (N.eqb 0) value then (s, None)
-      else ({| s_skip := s_skip s; s_id := Some value; s_name := s_name s; s_parts := s_parts s; s_retry := s_retry s |}, None)
+      else ({| s_id := Some value; s_name := s_name s; s_parts := s_parts s; s_retry := s_retry s |}, None)
     else if bytes_eqb field f_retry then
       if negb (is_nil value) && forallb is_dec value && Nat.leb (length value) max_int_digits then
-        ({| s_skip := s_skip s; s_id := s_id s; s_name := s_name s; s_parts := s_parts s; s_retry := Some (dec_value value) |}, None)
+        ({| s_id := s_id s; s_name := s_name s; s_parts := s_parts s; s_retry := Some (dec_value value) |}, None)
       else (s, None)
     else (s, None).
 
-Definition with_skip (s : sst) (k : bool) : sst :=
-  {| s_skip := k; s_id := s_id s; s_name := s_name s; s_parts := s_parts s; s_retry := s_retry s |}.
-
 Definition sse_stage (s : sst) (b : bytes) : sres sst (option event) :=
-  match line_stage ESse (s_skip s) b with
+  match line_stage ESse (fst s) b with
   | Need => Need
   | Fail k => Fail k
-  | Step k r l => let (s', o) := sse_line (with_skip s k) l in Step s' r o
+  | Step k r l => let (e', o) := sse_line (snd s) l in Step (k, e') r o
   end.
 
 Definition sse_start : pstate sst := Live sse_init [].
@@ -86,7 +84,7 @@ Definition sse_start : pstate sst := Live sse_init [].
 (* events, last event id, retry after feeding the reads *)
 Definition sse_result (x : pstate sst * list (option event)) : option (list event * option bytes * option N) :=
   match x with
-  | (Live s _, os) => Some (somes os, s_id s, s_retry s)
+  | (Live s _, os) => Some (somes os, s_id (snd s), s_retry (snd s))
   | (Dead _, _) => None
   end.
 
@@ -183,8 +181,8 @@ Definition check_result (x : pstate sst * list (option event)) (c : case) : bool
   | (Dead _, os) => c_err c && list_eqb event_eqb (somes os) (c_events c)
   | (Live s b, os) =>
     negb (c_err c) && list_eqb event_eqb (somes os) (c_events c)
-    && option_eqb bytes_eqb (s_id s) (c_leid c) && option_eqb N.eqb (s_retry s) (c_retry c)
-    && bytes_eqb (raw_of (s_skip s) b) (c_left c)
+    && option_eqb bytes_eqb (s_id (snd s)) (c_leid c) && option_eqb N.eqb (s_retry (snd s)) (c_retry c)
+    && bytes_eqb (raw_of (fst s) b) (c_left c)
   end.
 
 Definition check_case (c : case) : bool :=
@@ -203,7 +201,7 @@ Definition check_case (c : case) : bool :=
 (* branch ids: 0 need 1 too long 2 dispatch 3 blank without data 4 comment
    5 event 6 data 7 id 8 id with NUL 9 retry ok 10 retry ignored 11 other field *)
 Definition n_branches : nat := 12.
-Definition line_branch (s : sst) (line : bytes) : nat :=
+Definition line_branch (s : est) (line : bytes) : nat :=
   if is_nil line then (if is_nil (s_parts s) then 3 else 2) else
   let '(field, sep, value) := partition1 58 line in
   if sep && is_nil field then 4 else
@@ -216,11 +214,11 @@ Definition line_branch (s : sst) (line : bytes) : nat :=
 Fixpoint branches_run (fuel : nat) (s : sst) (b : bytes) : list nat * pstate sst :=
   match fuel with
   | 0 => ([], Live s b)
-  | S f => match line_stage ESse (s_skip s) b with
+  | S f => match line_stage ESse (fst s) b with
            | Need => ([0], Live s b)
            | Fail k => ([1], Dead k)
-           | Step k r l => let (s', _) := sse_line (with_skip s k) l in
-                           let (bs, p) := branches_run f s' r in (line_branch s l :: bs, p)
+           | Step k r l => let (e', _) := sse_line (snd s) l in
+                           let (bs, p) := branches_run f (k, e') r in (line_branch (snd s) l :: bs, p)
            end
   end.
 Fixpoint branches_reads (p : pstate sst) (reads : list bytes) : list nat :=
